@@ -134,7 +134,9 @@ def keys_read(ctx, f: FuncInfo, _seen=None):
     def put(k, kind):
         if k is None:
             return
-        if out.get(k) != "hard":
+        if kind == "test":
+            out.setdefault(k, kind)
+        elif out.get(k) != "hard":
             out[k] = kind
     for x in walk_shallow(f.node):
         if isinstance(x, ast.Subscript) and isinstance(x.value, ast.Name) and x.value.id == sv and isinstance(x.ctx, ast.Load):
@@ -148,7 +150,9 @@ def keys_read(ctx, f: FuncInfo, _seen=None):
             put(_key(ctx, f, argn(x, 0)), "soft")
         if isinstance(x, ast.Compare) and len(x.ops) == 1 and isinstance(x.ops[0], (ast.In, ast.NotIn)) \
                 and isinstance(x.comparators[0], ast.Name) and x.comparators[0].id == sv:
-            put(_key(ctx, f, x.left), "soft")
+            k_ = _key(ctx, f, x.left)       # a membership test alone restores nothing
+            if k_ is not None and k_ not in out:
+                out[k_] = "test"
         if isinstance(x, ast.Call) and isinstance(x.func, ast.Attribute) and x.func.attr in ("_restore_from_state",) \
                 and x.args and isinstance(argn(x, 0), ast.Name) and argn(x, 0).id == sv:
             if _super_call(x, "_restore_from_state"):
@@ -207,7 +211,7 @@ def s1(ctx, rep, sweep=False):
                 raise
             rep.info("S1", "agreement", f"{c.name}: state keys", f, None, f"not analysed: {e}")
             continue
-        unread = sorted(k for k in W if k not in R)
+        unread = sorted(k for k in W if R.get(k, "test") == "test")
         missing = sorted(k for k, kind in R.items() if kind == "hard" and (k not in W or W[k]))
         # a conditional write read under a guard the restore side re-evaluates on the same attribute is fine
         missing = [k for k in missing if not (k in W and all(("self." in repr(g)) for g in W[k]) and _restore_guarded(ctx, target, k, W[k]))]
@@ -223,7 +227,7 @@ def s1(ctx, rep, sweep=False):
     # ExclusionList and encode/decode
     ex = P.cls("ExclusionList")
     W = keys_written(ctx, ex)
-    R = keys_read(ctx, ex.methods["clone_from_state"])
+    R = {k: v for k, v in keys_read(ctx, ex.methods["clone_from_state"]).items() if v != "test"}
     rep.put(set(W) == set(R), "S1", "agreement", "ExclusionList: get_state keys == clone_from_state keys", ex, None, str(sorted(W)),
             f"written {sorted(W)} vs read {sorted(R)}")
     enc = P.func("syne_tune.optimizer.schedulers.searchers.gp_searcher_utils.encode_state")
@@ -237,7 +241,7 @@ def s1(ctx, rep, sweep=False):
         d = dict_items(v)
         if d:
             wk |= set(d)
-    rk = set(keys_read(ctx, dec))
+    rk = {k for k, v in keys_read(ctx, dec).items() if v != "test"}
     rep.put(bool(wk) and wk == rk, "S1", "agreement", "encode_state keys == decode_state keys", enc, None, str(sorted(wk)),
             f"encode_state writes {sorted(wk)}, decode_state reads {sorted(rk)}")
     # a pending evaluation keeps its resource level in the snapshot: the element written for an entry WITH a resource has the key
